@@ -7,11 +7,11 @@ C = {}
 def add(pid, technique, text, note):
     C[pid] = dict(technique=technique, text=text, note=note, ref="DESIGN.md §2 " + pid)
 
-add("C01", "property-based testing (rapid) over byte-level generators + exhaustive prefix enumeration of the repository's snippets; oracle: no panic / returns under watchdog / err == nil / input buffer unchanged; generated repetition shapes measured in thread CPU time at three sizes for the proportional-time clause; thorough adds native go test -fuzz",
-    "Exploration: every byte prefix of every repository test snippet with hostile tails, hundreds of thousands of mutated / dictionary-soup / random inputs x versions x {callback, nil}, PHP 5 semantic-error programs without callback, and a generated search for super-linear behaviour (drawn lexical context x drawn repeated unit x optional nesting, 24/96/384 KiB, CPU-time ratios) plus ~35 fixed shapes up to 1 MiB. No proof of absence.",
+add("C01", "property-based testing (rapid) over byte-level generators + exhaustive prefix enumeration of the repository's snippets; oracle: no panic / returns under watchdog / err == nil / input buffer unchanged; exhaustive sweep of every single fragment repeated in every lexical context plus drawn repetition shapes, measured in thread CPU time at up to three sizes, for the proportional-time clause; thorough adds native go test -fuzz",
+    "Exploration: every byte prefix of every repository test snippet with hostile tails, hundreds of thousands of mutated / dictionary-soup / random inputs x versions x {callback, nil}, PHP 5 semantic-error programs without callback, an exhaustive sweep (34 lexical contexts x ~330 single fragments repeated to 96 KiB; one version per pair in quick, three in thorough) and a generated search for super-linear behaviour (drawn lexical context x drawn repeated unit of 1-3 fragments x optional nesting, 24/96/384 KiB, CPU-time ratios) plus ~35 fixed shapes up to 1 MiB. No proof of absence.",
     "Proportional time is decided by growth ratios of thread CPU time on repetition shapes (violation: > 10x for 4x the input at two consecutive size steps), so polynomial blow-ups are found but a large constant factor is not; inputs > 1 MiB are not explored; hangs are detected by a 20 s watchdog. One scaling finding is open (unterminated-opener-rescan) and its trigger is excluded from the search by an input pre-filter (counted).")
-add("C02", "property-based testing (rapid): grammar-based program generator with drawn trivia + byte-level inputs; round-trip oracle print(parse(src)) == src, with an independent token render to localise faults",
-    "Exploration: generated programs of both families under four trivia policies incl. CRLF, comments, shebang, close tags, heredocs, > 2 pool blocks; error-free byte-level inputs. Byte-exact comparison.",
+add("C02", "property-based testing (rapid): grammar-based program generator with drawn trivia + byte-level inputs (incl. file heads such as byte order marks); round-trip oracle print(parse(src)) == src, with an independent token render to localise faults; the same oracle through the command-line tool (php-parser -pb over generated directories)",
+    "Exploration: generated programs of both families under four trivia policies incl. CRLF, comments, shebang, close tags, heredocs, > 2 pool blocks; error-free byte-level inputs; directories of 1-24 generated files written back by `php-parser -pb` (built from the tree under test). Byte-exact comparison.",
     "Generated programs avoid the constructs behind open findings (counted in the evidence); lone CR between tokens is excluded because of finding lone-cr-newline.")
 add("C03", "property-based testing (rapid): programs generated as token-bearing ast trees from an independent model (constructors per construct, PHP manual precedence table); oracle: zero errors and structural + token + position equality with the model; exhaustive enumeration of operator nests (every operator in every operand position of every other, fusion-family triples; all triples in thorough); negative version-gating cases",
     "Exploration: tens of thousands (thorough: > 1M) generated programs per run covering every node kind the generator can derive, all operator pairs, dangling else, keyword case; version gating by fixed PHP 7-only snippets and generated flexible heredocs. PHP itself is not available as referee: 'the tree PHP prescribes' is the generator's transcription of the language reference.",
@@ -32,33 +32,33 @@ add("C08", "property-based testing (rapid): metamorphic - the same generated pro
     "Exploration: all inter-token gaps where PHP permits trivia receive none / whitespace (LF, CRLF, tabs, VT, FF) / block, doc, line and hash comments; structure compared with the reference parse and the generator's model.",
     "Three open findings (comment between ';' and '?>', comment inside __halt_compiler ( ) ;, lone CR) are excluded from the policies and replayed as KNOWN-FINDING.")
 add("C09", "exhaustive enumeration of a (major, minor) grid incl. boundary/huge values against an independent table + property-based differential testing of version pairs, version strings and ordering laws (rapid)",
-    "Exploration: the grid is enumerated completely; Validate, Parse and the table must agree; default version == 7.4; same-side versions agree on generated, heredoc-soup and byte-level inputs; New/Compare/InRange against reference implementations.",
+    "Exploration: the grid is enumerated completely; Validate, Parse and the table must agree; default version == 7.4; same-side versions agree on generated, heredoc-soup and byte-level inputs; New/Compare/InRange against reference implementations; the command-line tool's -phpver flag (drawn strings and versions, omitted flag) against the same table and the library's errors for a probe file.",
     "Values between the listed grid points are not enumerated.")
 add("C10", "property-based differential testing (rapid): programs generated from the common PHP 5/7 subset under all trivia policies, parsed under a 5.x and a 7.x version; trees must be equal in structure, tokens and positions; plus the exhaustive operator-nest enumeration over the shared operators",
     "Exploration: the common subset is defined by the generator (PHP 5.6 constructs minus what the uniform-variable-syntax RFC regrouped and minus PHP 7-only syntax), not by asking the two parsers.",
     "Shapes behind the PHP 5-only span findings are excluded (counted).")
-add("C11", "race-detector monitoring (go test -race) + property-based differential testing of generated job sets: concurrent results vs sequential reference; parse-twice determinism",
-    "Exploration: 8-40 pipelines on 2-32 goroutines over all 12 versions; every observable result compared with its sequential reference; any race report is a violation. Schedules are NOT enumerated: the harness does not control the Go scheduler.",
+add("C11", "race-detector monitoring (go test -race) + property-based differential testing of generated job sets: concurrent results vs sequential reference; parse-twice determinism; stateful parse histories (drawn sequences of parses of a few jobs with garbage collections in between: same result every time, kept trees unchanged); the race-built command-line tool over directories of many files vs the files processed alone",
+    "Exploration: 8-40 pipelines on 2-32 goroutines over all 12 versions; every observable result compared with its sequential reference; any race report is a violation; job sets include 'twin' inputs that agree in most offsets (state kept per offset by recycled objects); parse histories of 3-14 steps; `php-parser -pb -r -e` (race build, GOMAXPROCS 2-16) over 8-60 files. Schedules are NOT enumerated: the harness does not control the Go scheduler.",
     "Logical races on properly synchronised shared state are only caught if they change a result in the runs made.")
 add("C12", "exhaustive enumeration of node kind x child-slot subsets with marker leaves + property-based testing on parsed trees; oracle: recording visitor (generated from the ast.Visitor interface) vs reflective source-order walk",
-    "Exploration: exhaustive over all kinds and child-slot subsets (list lengths 0/1/3); all parsed trees of generated programs and byte-level inputs.",
+    "Exploration: exhaustive over all kinds and child-slot subsets (list lengths 0/1/3); all parsed trees of generated programs, byte-level inputs, large programs (120-200 statements) and programs repeating a few statements up to 4200 times.",
     "Relies on the field-order convention of pkg/ast/node.go (self-tested).")
 add("C13", "property-based stateful testing (rapid): histories of print/dump/traverse/resolve on one tree vs fresh-parse references, full-tree and slice-capacity fingerprints after every step, source-buffer equality; pointer-disjointness of two parses",
-    "Exploration: histories of up to 12 operations over generated, namespace-heavy and byte-level inputs.",
+    "Exploration: histories of up to 16 operations (the four observers on the root and on sub-trees) over generated, namespace-heavy, long-lexeme and byte-level inputs.",
     "Observers that mutate state outside the tree and the source buffer are not visible to the fingerprints.")
-add("C14", "property-based model-based testing (rapid): programs rendered from a namespace/import/reference model; reference name resolver over the model predicts the exact ResolvedNames map (keys by source offset)",
-    "Exploration: all reference positions x name forms x alias kinds x letter-case variants x namespace styles are populated (distribution in the evidence); missing, wrong and extra entries fail.",
+add("C14", "property-based model-based testing (rapid): programs rendered from a namespace/import/reference model; reference name resolver over the model predicts the exact ResolvedNames map (keys by source offset); the same prediction, as a multiset, for the names printed by `php-parser -r`",
+    "Exploration: all reference positions x name forms x alias kinds x letter-case variants (ASCII-only folding; non-ASCII near-miss names) x namespace styles x prefix lengths 1-7 are populated (distribution in the evidence); missing, wrong and extra entries fail.",
     "The reference resolver is my transcription of PHP's name-resolution rules as stated in the property.")
 add("C15", "exhaustive enumeration of node kind x slot subsets with unique marker tokens/free-floating tokens/leaves + property-based subtree replacement on parsed trees; oracle: reflective source order + independent canonical-lexeme table",
     "Exploration: exhaustive for kinds with <= 10 slots, all/none/single/pair subsets for larger kinds, list lengths and separator-count variants; replacement locality on generated programs.",
     "The canonical-lexeme table is hand-written from PHP syntax; free-text slots (heredoc labels) accept any identifier-like text.")
 add("C16", "exhaustive enumeration of node kind x slot subsets (hostile values, with/without tokens/positions) + property-based testing on parsed trees; oracle: go/parser + lock-step reader against the reflective schema",
-    "Exploration: exhaustive for kinds with <= 10 slots, all/none/single/pair subsets for larger kinds, random subsets, all four option combinations; dumps of parsed trees.",
+    "Exploration: exhaustive for kinds with <= 10 slots, all/none/single/pair subsets for larger kinds, random subsets, all four option combinations; dumps of parsed trees; the dump printed by `php-parser -d` against the library's dump and the tree.",
     "Empty non-nil lists may be dumped as empty literals or omitted (both accepted).")
 add("C17", "property-based testing (rapid): generated programs in three renderings; oracles: parse(F(src)) == parse(src) structurally, F canonical across whitespace-only re-layouts, F idempotent, no panic; plus the exhaustive operator-nest enumeration (minimal vs spaced rendering)",
-    "Exploration: generated programs of both families; 14 formatter defects found this way were repaired in /repo (reproducers in corpus/C17), 2 are open findings whose triggers are switched off in the generator (counted).",
-    "The claim is narrow where constructs are switched off: alternative-syntax statements ending in a close tag, and an alternative-syntax if as unbraced body before else.")
-add("C18", "exhaustive enumeration of (block size, request count), deep allocation histories (300 000+ requests) + rapid state machine (Get/Get-without-write/write/read-back) against a pointer-identity model",
+    "Exploration: generated programs of both families; 18 formatter defects found this way were repaired in /repo (reproducers in corpus/C17), 2 are open findings: one is switched off in the generator, for the other the programs are generated and only its known failure mode is tolerated (both counted).",
+    "The claim is narrow in two places: an alternative-syntax if as unbraced body before else is not generated; for programs where a close tag follows a brace-form statement the comparison ignores empty statements in lists and there is no canonical/idempotence clause.")
+add("C18", "exhaustive enumeration of (block size, request count), deep allocation histories (300 000+ requests) + rapid state machine (two pools side by side: Get/Get-without-write/write/read-back/pool replacement + GC) against a pointer-identity model",
     "Exploration: every (block size 1..64, request count 0..5*size+3) history of both pools exhaustively, the default 1024 size around 1..6 boundaries, sizes around powers of two up to 2^17 crossing the 2^16 boundary, rapid-drawn sizes up to 8192 and a rapid state machine; each object is stamped and all earlier objects re-read.",
     "Trusts Go pointer identity and the GC keeping old blocks alive; sizes > 2^17 not explored.")
 
